@@ -2131,7 +2131,7 @@ class ArrayMixin(MonadMixin):
             expr_sql = monad.getsql()[0]
             index_sql = index.getsql()[0]
             value = index_sql[1]
-            if value >= 0:
+            if value >= 0 or not from_one:  # SQLite: py_array_index/py_array_slice take Python indexes as they are
                 index_sql = ['VALUE', value + int(from_one and plus_one)]
             else:
                 index_sql = ['SUB', ['ARRAY_LENGTH', expr_sql], ['VALUE', abs(value + int(from_one and plus_one))]]
@@ -2139,6 +2139,7 @@ class ArrayMixin(MonadMixin):
         elif isinstance(index, NumericMixin):
             expr_sql = monad.getsql()[0]
             index0 = index.getsql()[0]
+            if not from_one: return index0  # SQLite: py_array_index/py_array_slice take Python indexes as they are
             index1 = ['ADD', index0, ['VALUE', 1]] if from_one and plus_one else index0
             index_sql = ['CASE', None, [[['GE', index0, ['VALUE', 0]], index1]],
                      ['ADD', ['ARRAY_LENGTH', expr_sql], index1]]
